@@ -60,6 +60,10 @@ CHECKS = {
   "Per generated settled image and both truncate_incomplete_record settings: every cut of the newest chunk and every zero tail from a record boundary (stride sub-sample above the budget, boundaries always included); oracle = reference replay of exactly the complete records present; sampled recovered stores continue under the model (writes, restart, acknowledged flush); with truncation off non-boundary images must be refused with all files untouched.",
   "Record boundaries and expected state from the reference decoder.",
   "property-based testing (proptest) for images + exhaustive/strided tail-fault enumeration, reference-replay oracle", "DESIGN.md §4 C10"),
+ "C12": ("exploration",
+  "Generated records of all six kinds (every Option combination, boundary integers, empty / Unicode / multi-KiB strings) and arbitrary byte strings: encode equals the independent reference encoding and the reported length; decode of encoding++junk round-trips and consumes exactly n; every truncation fails; every single-byte mutation and arbitrary input agrees with the reference decoder (Ok / UnexpectedEof / invalid, record, consumed length), never panics, and decoded records re-encode canonically. Saved libFuzzer corpus replayed in every tier; thorough adds the coverage-guided campaign (cargo-fuzz target c12_decode with the same differential oracle in-target).",
+  "Reference codec written from the format description; libFuzzer campaign pinned only approximately by -seed/-runs, its saved inputs are the reproducible unit.",
+  "property-based testing (proptest) round-trip + differential decoding; coverage-guided fuzzing (cargo-fuzz/libFuzzer) with in-target differential oracle", "DESIGN.md §4 C12"),
 }
 
 ALL = [f"C{i:02d}" for i in range(1, 17)]
@@ -90,7 +94,7 @@ def main():
         },
         "engines": [{
             "name": "rlv", "path": "/verif/harness", "serves_properties": sorted(CHECKS),
-            "kind_free_text": "Rust binary: proptest TestRunner in 16 child shards; reference model + reference codec; libc symbol interposition for I/O trace, worker gating, fault injection and shadow-FS crash images",
+            "kind_free_text": "Rust binary (plus /verif/fuzz cargo-fuzz target for C12): proptest TestRunner in 16 child shards; reference model + reference codec; libc symbol interposition for I/O trace, worker gating, fault injection and shadow-FS crash images",
         }],
         "checks": checks,
         "not_applicable": [{"property_id": p, "reason": "check under construction in this round; not claimed yet"} for p in ALL if p not in CHECKS],
